@@ -11,6 +11,7 @@ import Comet.Driver.HSearch
 import Comet.Driver.Vec5
 import Comet.Driver.Conc
 import Comet.Driver.Store
+import Comet.Driver.Post
 namespace Comet.Driver
 
 def handlers : List Handler := [
@@ -24,6 +25,7 @@ def handlers : List Handler := [
   BM25Stream.handler,
   AtomicStream.handler,
   FlatStream.handler,
+  PostStream.handler,
   DistStream.handler,
   TrainStream.handler,
   StoreStream.handlerRestart, StoreStream.handlerStore, StoreStream.handlerCrash
